@@ -147,10 +147,13 @@ func tagsOf(ops []Op, obs []StepObs) []string {
 		} else {
 			accepted++
 		}
-		for a := 0; a < NAddr; a++ {
+		for a := 0; a < NSock; a++ {
 			if o.Count[a] > 1 {
 				set["shared-address"] = true
 			}
+		}
+		if len(o.Tags[NAddr]) > 0 {
+			set["unix-socket"] = true
 		}
 		if len(ops[i].Env.Blocked) > 0 {
 			set["blocked"] = true
@@ -172,8 +175,13 @@ func tagsOf(ops []Op, obs []StepObs) []string {
 
 func ShowSocks(o StepObs) string {
 	var parts []string
-	for a := 0; a < NAddr; a++ {
+	for a := 0; a < NSock; a++ {
 		if o.Count[a] == 0 && len(o.Tags[a]) == 0 {
+			continue
+		}
+		if a == NAddr {
+			// the unix socket has no observable usage count (listenerPool counts only its first listener)
+			parts = append(parts, fmt.Sprintf("%d:u:%s", a, showNats(o.Tags[a])))
 			continue
 		}
 		parts = append(parts, fmt.Sprintf("%d:%d:%s", a, o.Count[a], showNats(o.Tags[a])))
